@@ -93,7 +93,10 @@ fn stream_decoder_case(out: &mut Out, r: &mut Rng, codec: &'static str, input: V
             // re-run alone, unsegmented
             match c12::decode(codec, ScriptedIo::whole(&input)) {
                 Dec::Hung => out.violation(format!("{} decoder: does not terminate on finite input", codec), serde_json::json!({"input_hex": hex(&input)})),
-                _ => out.inconclusive += 1,
+                _ => {
+                    println!("{}", serde_json::json!({"t": "note", "what": "poll budget exceeded only when segmented", "codec": codec, "input_hex": hex(&input[..input.len().min(400)]), "len": input.len()}));
+                    out.inconclusive += 1
+                }
             }
         }
         _ => {}
@@ -183,9 +186,12 @@ async fn h11c_connect_case(out: &mut Out, r: &mut Rng) {
             }
         }
     };
-    match run_budget(fut, 200_000) {
+    match run_budget(fut, 200_000 + 16 * bytes.len()) {
         Ran::Panicked(p) => out.violation(format!("h11c_connect (upstream reply): {}", p.sig()), serde_json::json!({"reply_hex": hex(&bytes), "reply": String::from_utf8_lossy(&bytes).chars().take(200).collect::<String>(), "feature": format!("{:?}", feature), "panic": p.msg})),
-        Ran::Hung => out.inconclusive += 1,
+        Ran::Hung => {
+            println!("{}", serde_json::json!({"t": "note", "what": "h11c_connect: poll budget exceeded", "reply_hex": hex(&bytes[..bytes.len().min(400)]), "len": bytes.len(), "feature": format!("{:?}", feature)}));
+            out.inconclusive += 1
+        }
         Ran::Done(()) => {}
     }
 }
@@ -241,9 +247,12 @@ async fn h11c_handshake_case(out: &mut Out, r: &mut Rng) {
             }
         }
     };
-    match run_budget(fut, 200_000) {
+    match run_budget(fut, 200_000 + 16 * bytes.len()) {
         Ran::Panicked(p) => out.violation(format!("h11c_handshake (client request): {}", p.sig()), serde_json::json!({"request_hex": hex(&bytes), "request": String::from_utf8_lossy(&bytes).chars().take(200).collect::<String>(), "panic": p.msg})),
-        Ran::Hung => out.inconclusive += 1,
+        Ran::Hung => {
+            println!("{}", serde_json::json!({"t": "note", "what": "h11c_handshake: poll budget exceeded", "request_hex": hex(&bytes[..bytes.len().min(400)]), "len": bytes.len()}));
+            out.inconclusive += 1
+        }
         Ran::Done(()) => {}
     }
 }
